@@ -79,6 +79,26 @@ def r1_representative(ctx, F):
         else:
             src_v, plan_v = noref(b.val(c.args[0])), noref(b.val(c.args[1]))
         plans.add(repr(plan_v))
+        # the transformed value goes into the result as it is: nothing re-orders or edits it afterwards
+        chain = set([c.dest['l']])
+        if op.get('k') in ('copy', 'move'):
+            chain.add(op['place']['l'])
+        grew = True
+        while grew:
+            grew = False
+            for (i_, si_, st_) in b.assigns(lambda s_: s_['rv']['k'] == 'use' and s_['rv']['op'].get('k') in ('copy', 'move')
+                                            and not s_['rv']['op']['place']['p'] and not s_['lhs']['p']):
+                if st_['rv']['op']['place']['l'] in chain and st_['lhs']['l'] not in chain:
+                    chain.add(st_['lhs']['l'])
+                    grew = True
+        touched = [st_['span'] for (i_, si_, st_) in b.assigns(lambda s_: s_['rv']['k'] == 'ref' and s_['rv'].get('mut')
+                                                              and s_['rv']['place']['l'] in chain)]
+        touched += [st_['span'] for (i_, si_, st_) in b.assigns(lambda s_: s_['lhs']['l'] in chain and s_['lhs']['p'])]
+        ctx.check(not touched, rule, role + '-used-as-computed', b,
+                  good='the transformed `%s` is stored unmodified' % fname,
+                  bad='representative(): the reindexed/rewritten `%s` is modified again before it is stored (%s): it '
+                      'then follows a different permutation than the other fields, so the result is not the image of '
+                      'the state under one permutation' % (fname, touched))
         ok_src = src_v.kind == 'arg' and src_v.key == 1 and src_v.fields() == ('.' + fname,)
         ctx.check(ok_src, rule, role + '-source', b,
                   good='field `%s` is computed from self.%s' % (fname, fname),
